@@ -406,6 +406,71 @@ def residual_case(ctx, K, d, es, inits, t, num, time_dep):
     compare(ctx, "residual_route.coeffs", "residual:coeffs", out, exact, scale, desc, tol=TOL_RESIDUAL)
 
 
+def implicit_series(a, b, c, e, u0, v0_unused, t0, n):
+    """exact Taylor coefficients (unnormalised derivatives u, u', ..., u^(n)) of the solution of the implicit problem
+    u' + a u'^3 = b u + c t + e, u(t0) = u0, on the branch u'(t0) = r (e is chosen by the caller such that r is rational);
+    Fractions throughout: normalised series A_k of u, V_k = (k+1) A_{k+1} of u'."""
+    r = v0_unused
+    A, V = [Fraction(u0)], [Fraction(r)]
+    lead = 1 + 3 * a * r * r
+    for k in range(1, n):
+        A.append(V[k - 1] / k)
+        # coefficient k of v^3 without the terms containing V_k:  sum over i+j+l = k with all indices < k
+        cube = Fraction(0)
+        for i in range(k + 1):
+            for j in range(k + 1 - i):
+                l = k - i - j
+                if k in (i, j, l):
+                    continue
+                cube += V[i] * V[j] * V[l]
+        rhs = b * A[k] + (c if k == 1 else 0)
+        V.append((rhs - a * cube) / lead)
+    A.append(V[n - 1] / n) if n >= 1 else None
+    fact = 1
+    out = []
+    for k, x in enumerate(A):
+        fact = fact * k if k > 0 else 1
+        out.append(x * fact)
+    return out
+
+
+def implicit_residual_corpus(ctx):
+    """`jetexpand_residual` on a genuinely implicit problem (nonlinear in the highest derivative, strictly monotone in it,
+    so the constraints determine all coefficients): u' + a u'^3 = b u + c t + e.  Every residual derived from an explicit
+    ODE is linear in the highest derivative, for which a Gauss-Newton iteration with a frozen Jacobian is still exact
+    (seeded change C10-s4); here the iteration has to re-linearise at the current iterate."""
+    import jax.numpy as jnp
+    from probdiffeq import probdiffeq
+    from probdiffeq._probdiffeq import taylor_points
+
+    for a, r, b, c, u0, t0, num in ((Fraction(1, 20), Fraction(5, 2), Fraction(3, 4), Fraction(1, 2), Fraction(3, 2), Fraction(1, 4), 3),
+                                    (Fraction(1, 2), Fraction(2), Fraction(-1), Fraction(1, 4), Fraction(1, 2), Fraction(0), 4)):
+        e = r + a * r**3 - b * u0 - c * t0  # makes u'(t0) = r
+        af, bf, cf, ef = float(a), float(b), float(c), float(e)
+        res = probdiffeq.residual_velocity(lambda u, du, /, *, t: du + af * du**3 - (bf * u + cf * t + ef))
+        if num >= 1:
+            res = res.jet_lift(lift_by=num - 1)
+        nl = taylor_points.lstsq_constrained_gauss_newton(maxiter=14, tol=1e-13)
+        desc = {"routine": "jetexpand_residual(residual_velocity(u' + a u'^3 - (b u + c t + e)).jet_lift(num-1))", "a": str(a), "b": str(b), "c": str(c), "e": str(e),
+                "u0": str(u0), "t0": str(t0), "num": num, "branch u'(t0)": str(r)}
+        ctx.case(desc)
+        ctx.count("residual_route.implicit")
+        try:
+            out, info = probdiffeq.jetexpand_residual(num=num, nlstsq=nl)(res, [jnp.asarray([float(u0)])], t=float(t0))
+        except Exception as ex:  # noqa: BLE001
+            ctx.violation("residual:implicit:raised", f"jetexpand_residual crashed on a valid implicit problem: {type(ex).__name__}: {str(ex)[:300]}", desc)
+            continue
+        got = np.array([float(np.asarray(x).reshape(-1)[0]) for x in out])
+        exact = implicit_series(a, b, c, e, u0, r, t0, num)
+        ex_f = np.array([float(x) for x in exact])
+        if len(got) != len(ex_f):
+            ctx.violation("residual:implicit:length", f"{len(got)} coefficients returned, {len(ex_f)} expected", desc)
+            continue
+        dev = float(np.max(np.abs(got - ex_f) / (np.abs(ex_f) + 1e-3 * np.max(np.abs(ex_f)))))
+        ctx.dev("residual_route.implicit", dev, 1e-9, case=dict(desc, got=got.tolist(), exact=[str(x) for x in exact]), sig="residual:implicit:coeffs",
+                what=f"coefficients of the implicit problem deviate by {dev:.2e} from the exact (rational) values")
+
+
 def run(ctx):
     import jax
 
@@ -447,6 +512,7 @@ def run(ctx):
         one_case(ctx, modes, K, d, es, inits, t, kind, num, td)
         done += 1
 
+    implicit_residual_corpus(ctx)
     # residual route (Gauss-Newton on a diffuse prior)
     n_res = ctx.n(4, 30)
     for i in range(n_res):
